@@ -153,6 +153,8 @@ static void case_nextprime(ByteSource& in, CaseInfo& ci) {
 }
 
 // ---- exhaustive sweep: every n in [0, 2^16) through the primality functions, small n through the combinatorial ones ----------
+static const uint64_t HP[4] = {2305843009213693951ull, 2305843009213693921ull, 2305843009213693907ull, 2305843009213693723ull};
+static uint64_t mod_limbs(const uint64_t* p, size_t n, uint64_t m) { ref::u128 r = 0; for (size_t i = n; i-- > 0;) r = ((r << 64) | p[i]) % m; return (uint64_t)r; }
 // third sweep domain: starts just below composites c = p*(m(p-1)+1), p and m(p-1)+1 prime, m = 2..7 (products with many Miller-Rabin
 // liars: the kind of composite that survives the two rounds of mpz_next_prime_candidate) for which c + 2 is prime: mpz_nextprime(c - 1)
 // must then be exactly c + 2
@@ -167,8 +169,17 @@ static void sweep_pseudoprime_start(uint64_t i, CaseInfo& ci) {
   Z n, r; mpz_set_ui(n, c - 1); mpz_nextprime(r, n); REQUIRE(int_from_mpz(r) == Int::from_u64(c + 2), "mpz_nextprime(%llu) = %s: skipped the prime %llu", (unsigned long long)(c - 1), ref::to_string(int_from_mpz(r), 10).c_str(), (unsigned long long)(c + 2));
   mpz_set_ui(n, c - 2); mpz_nextprime(n, n); REQUIRE(int_from_mpz(n) == Int::from_u64(c + 2) || ref::is_prime_u64(c - 1), "mpz_nextprime(%llu) in place: wrong", (unsigned long long)(c - 2));
 }
-static uint64_t sweep_count() { return 65536 + np_cands().size(); }
+// fourth sweep domain: mpz_primorial_ui(n) for n = p^2 and p^2 + 1, p prime with 786432 < p^2 < 2.6*10^6 (the blocked sieve is in use and its
+// limit falls exactly on a prime square), compared modulo four 61-bit primes with an own sieve
+static const std::vector<uint64_t>& sq_ns() { static std::vector<uint64_t> v; if (v.empty()) for (uint64_t p = 887; p * p < 2600000; p++) if (ref::is_prime_u64(p)) { v.push_back(p * p); v.push_back(p * p + 1); } return v; }
+static void sweep_prime_square_limit(uint64_t i, CaseInfo& ci) {
+  uint64_t n = sq_ns()[i]; ci.d("mpz_primorial_ui(%llu) (a prime square or its successor)", (unsigned long long)n);
+  uint64_t e[4] = {1, 1, 1, 1}; std::vector<bool> comp(n + 1, false); for (uint64_t p = 2; p <= n; p++) { if (comp[p]) continue; for (int j = 0; j < 4; j++) e[j] = ref::mulmod64(e[j], p, HP[j]); for (uint64_t q = p * p; q <= n; q += p) comp[q] = true; }
+  Z r; mpz_primorial_ui(r, n); for (int j = 0; j < 4; j++) REQUIRE(mod_limbs((const uint64_t*)r.z->_mp_d, (size_t)r.z->_mp_size, HP[j]) == e[j], "mpz_primorial_ui(%llu): wrong value modulo %llu", (unsigned long long)n, (unsigned long long)HP[j]);
+}
+static uint64_t sweep_count() { return 65536 + np_cands().size() + sq_ns().size(); }
 static void sweep_item(uint64_t i, CaseInfo& ci) {
+  if (i >= 65536 + np_cands().size()) { sweep_prime_square_limit(i - 65536 - np_cands().size(), ci); return; }
   if (i >= 65536) { sweep_pseudoprime_start(i - 65536, ci); return; }
   ci.d("n=%llu", (unsigned long long)i); Z n, r; mpz_set_ui(n, i); bool p = ref::is_prime_u64(i); RS rs(i * 2654435761u + 1);
   int g = mpz_probab_prime_p(n, 25); REQUIRE(p ? g != 0 : g == 0, "mpz_probab_prime_p(%llu, 25) = %d, %s", (unsigned long long)i, g, p ? "prime" : "composite");
@@ -186,8 +197,6 @@ static void sweep_item(uint64_t i, CaseInfo& ci) {
 // rare class: arguments in the millions (several blocks of the prime sieve behind primorial / factorial / binomial); the exact value
 // is out of reach for the reference, so the result is compared modulo four 61-bit primes (all > n) and modulo 2^64 is left to the
 // exact tiers: n! = prod i, primorial = prod of primes from an own sieve, bin(n,k) = n!/(k!(n-k)!) with Fermat inverses
-static const uint64_t HP[4] = {2305843009213693951ull, 2305843009213693921ull, 2305843009213693907ull, 2305843009213693723ull};
-static uint64_t mod_limbs(const uint64_t* p, size_t n, uint64_t m) { ref::u128 r = 0; for (size_t i = n; i-- > 0;) r = ((r << 64) | p[i]) % m; return (uint64_t)r; }
 static void case_huge(ByteSource& in, CaseInfo& ci) {
   unsigned f = in.pick({4, 1, 2}); uint64_t hi = in.scale >= 120 ? 30000000ull : 4000000ull; uint64_t n = in.logrange(100000, f == 1 ? hi / 3 : hi), k = 0;
   if (f == 2) { k = in.flag() ? n / 2 - in.range(0, n / 8) : in.logrange(1000, n / 2); }
@@ -206,5 +215,5 @@ namespace eng {
 PropDef g_prop = {"C16",
   "Cases: a rare class (~1 in 1300) of mpz_primorial_ui / mpz_fac_ui / mpz_bin_uiui with arguments 10^5..4*10^6 (thorough: 3*10^7; several blocks of the prime sieve) compared modulo four 61-bit primes with an own sieve / modular factorials; mpz_fac_ui/2fac_ui/mfac_uiui/primorial_ui (n dense to 120, around table ends and FAC thresholds, log-uniform to the scale cap; m in {1..12, n-1, n, n+1, > n}); mpz_bin_uiui on (n,k) shapes for each algorithm region (small, k near 0 or n, central, huge n with small k, k>n) and mpz_bin_ui with negative and multi-limb n; mpz_fib_ui/fib2_ui/lucnum_ui/lucnum2_ui (dense to 200, around 93/186 table limits, log-uniform beyond, n=0); mpz_remove (f>=2 only: 2, small, 2^j, multi-limb; multiplicity 0..thousands; negative op; aliasing); primality: all n < 70000, n near 2^16/2^31/2^32/2^53/2^63/2^64, random 64-bit, Chernick Carmichael numbers, strong pseudoprimes (psi values), squares and products of close primes, large primes of special form (Mersenne, 2^k+-c) and composites built from them; nextprime / next_prime_candidate incl. starts of large prime gaps and arguments next to 2^64. Oracle: refint by definition (product trees, multiplicative binomial with verified exact division, fast-doubling Fibonacci); deterministic Miller-Rabin for n < 2^81, construction knowledge beyond; checks: never 0 for a prime, never 2 for a composite, 0 for composites at reps>=25 / prob>=50, result > n with no prime strictly between. mpz_miller_rabin only on odd n >= 11. Non-trivial: result >= 2 limbs / n > 3. Distinct = hash of all decoded choices.",
   check, setup_primes, {"huge_sieve_argument", "carmichael", "strong_pseudoprime", "semiprime_close", "large_prime_special_form", "large_composite_special_form", "near_2^k", "bin:k_gt_n", "bin_ui:negative_n", "bin_ui:multi_limb_n", "mfac:m_gt_n", "fac:ge_dsc_threshold", "fib:n0", "large_gap_start", "remove:negative_op"}, nullptr, sweep_count, sweep_item,
-  "every n in [0,2^16): mpz_probab_prime_p (25 reps), mpz_probable_prime_p (prob 50), mpz_likely_prime_p, mpz_miller_rabin (odd n>=11), mpz_nextprime (exact next prime), mpz_next_prime_candidate; every n <= 1500: fac, 2fac, mfac m=3..5, primorial, fib, fib2, lucnum, lucnum2; every (n,k) in [0,89]x[0,94]: bin_uiui, bin_ui; plus mpz_nextprime started just below every composite p*(m(p-1)+1) (p prime in [10007, 3*10^6], m = 2..7, second factor prime) whose successor + 2 is prime"};
+  "every n in [0,2^16): mpz_probab_prime_p (25 reps), mpz_probable_prime_p (prob 50), mpz_likely_prime_p, mpz_miller_rabin (odd n>=11), mpz_nextprime (exact next prime), mpz_next_prime_candidate; every n <= 1500: fac, 2fac, mfac m=3..5, primorial, fib, fib2, lucnum, lucnum2; every (n,k) in [0,89]x[0,94]: bin_uiui, bin_ui; plus mpz_nextprime started just below every composite p*(m(p-1)+1) (p prime in [10007, 3*10^6], m = 2..7, second factor prime) whose successor + 2 is prime; plus mpz_primorial_ui at every prime square p^2 and p^2+1 with 786432 < p^2 < 2.6*10^6 (limit of the blocked sieve exactly on a prime square), modulo four 61-bit primes"};
 }
